@@ -8,6 +8,8 @@ from .common import call, RAISED
 from .c03 import judge_pairs
 
 CAP = {'quick': 1500, 'thorough': 4000}
+BIGCAP = 70000
+STATE = {'cap': None}
 
 META = {
     'rule': ('cases: the C03 context stream. Events: every exhausted (or abandoned) run of '
@@ -46,7 +48,7 @@ class GenMonitor(Monitor):
     def after(self, token, args, kwargs, result):
         ctx = common.get_arg(args, kwargs, 0, 'context')
         sh = attach.shadow_of(ctx)
-        name, cap = self.gname, self.cap
+        name, cap = self.gname, (STATE['cap'] or self.cap)
 
         def judge(items, complete, exc):
             COL.count('judged_' + name)
@@ -82,7 +84,7 @@ class ListMonitor(Monitor):
         except Exception as e:
             COL.violation('get_concepts', 'get_concepts:item-not-decodable', None, repr(e))
             return
-        judge_pairs(sh, pairs, self.cap, 'get_concepts')
+        judge_pairs(sh, pairs, STATE['cap'] or self.cap, 'get_concepts')
         for item, (ext, int_) in list(zip(result, pairs))[:60]:
             COL.count('judged_items_of_get_concepts')
             try:
@@ -119,6 +121,7 @@ def setup(concepts, spec):
 
 
 def cases(tier, seed, spec):
+    yield from gen.biglat(tier)
     yield from gen.ctx_stream(tier, seed)
 
 
@@ -128,7 +131,11 @@ def run_case(concepts, case, spec):
     if ctx is None:
         return
     sh = attach.shadow_of(ctx)
-    cap = CAP[spec['tier']]
+    big = case['fam'].startswith('BIGLAT')
+    cap = BIGCAP if big else CAP[spec['tier']]
+    STATE['cap'] = cap
+    if big:
+        COL.count('biglat_cases')
     sl = sh.lattice(cap)
     alg = concepts.algorithms
     COL.sample({'table': case, 'n_concepts': sl.n})
